@@ -141,7 +141,11 @@ def make_resource(log, plan=None, delays=None, salt="", version=None):
                 log.append(("start", key, t))
                 if delays is not None:
                     time.sleep(delays(key))
-                kind = plan.pop(key, "ok")
+                kind = plan.get(key, "ok")
+                if kind != "notfound":
+                    # transient faults hit the next fetch only; a missing remote object stays missing for every
+                    # fetch until the harness clears the plan (the same URI may occur twice in one request)
+                    plan.pop(key, None)
                 if kind == "notfound":
                     log.append(("notfound", key, t))
                     raise _RemoteResourceUriNotFound(u)
@@ -249,6 +253,11 @@ class Lab:
             self.cache = FileCache(self.root, self.limit_bytes / 1e9, resources=[res], parallel=self.parallel,
                                    allow_for_missing_files=self.allow_missing)
         self.cache.disable_progress_bar = True
+        try:
+            # a validation function that accepts everything, for requests made through the "validate=ok:" directive
+            self.cache.set_directive_function("validate", "ok", lambda path: True)
+        except Exception:
+            pass
         return self.cache
 
     def disk_cache_files(self):
@@ -285,14 +294,14 @@ class Lab:
                                key=f"{p}:bytes")
 
     # -- operations
-    def op_get(self, keys, expect_fail=()):
+    def op_get(self, keys, expect_fail=(), directive=""):
         p = self.prop
         age_cache_files(self.root)
         self.tick += 1
         before_names = set(self.disk_cache_files())
         limit_before = self.limit()
         self.log.clear()
-        uris = [uri(k) for k in keys]
+        uris = [directive + uri(k) for k in keys]
         with warnings.catch_warnings():
             warnings.simplefilter("ignore")
             paths = self.cache[uris if len(uris) > 1 else uris[0]]
